@@ -74,6 +74,12 @@ def shared_configs(ml, tier):
                     out.append((k, list(sub), "explicit"))
             if all(POOL[ml[i]][0] == "xy" for i in sub):
                 out.append(("x-abs", list(sub)))
+        # two shared sources of one axis whose member lists overlap in two members (their blocks between that pair add up):
+        # on the same subset, and on a subset plus its first/last pair
+        for sub in subsets:
+            out.append(("y-abs-rho+y-cov", list(sub)))
+            if len(sub) >= 3:
+                out.append(("y-abs+y-abs-rho", list(sub), "second-on", [sub[0], sub[-1]]))
     return out
 
 
@@ -295,7 +301,14 @@ def run_history(ml, shared, seq, fit, order, res=None, post=None, pre_ops=()):
     pre, viol = [], []
     cur = pre
     try:
-        if shared is not None:
+        if shared is not None and "+" in shared[0]:
+            k1, k2 = shared[0].split("+")
+            second = list(shared[3]) if len(shared) > 3 and shared[2] == "second-on" else list(shared[1])
+            mw.apply(("shared", k1, "sh0", list(shared[1])))
+            mw.apply(("shared", k2, "sh1", second))
+            if res is not None:
+                res.transitions += 2
+        elif shared is not None:
             mw.apply(_shared_op(shared))
             if res is not None:
                 res.transitions += 1
@@ -409,10 +422,12 @@ def run_job(spec):
         res.observe((repr(key), len(viol)))
         res.outcomes[("members%d" % len(ml), "shared" if shared else "plain", _fit_tag(fit, None) + (">post" if post else ""), "ok" if not viol else "VIOLATION")] += 1
         res.facts["shared:%s" % (shared[0] if shared else "none")] += 1
+        if shared and "+" in shared[0]:
+            res.facts["shared:two-sources"] += 1
         if shared and len(shared[1]) == 2 and shared[1][1] - shared[1][0] == 2:
             res.facts["shared:non-adjacent"] += 1
         if shared and all(POOL[ml[j]][0] != "xy" for j in shared[1]):
-            res.facts["shared:single-axis:%s" % ("axis given" if len(shared) > 2 else "axis omitted")] += 1
+            res.facts["shared:single-axis:%s" % ("axis given" if len(shared) > 2 and shared[2] == "explicit" else "axis omitted")] += 1
             if any(POOL[ml[j]][0] == "hist" for j in shared[1]):
                 res.facts["shared:chi2-histogram"] += 1
         for op in seq:
@@ -428,7 +443,7 @@ def run_job(spec):
             sig = "%s%s|%s|%s|%s" % (
                 "".join("[f%d.%s first]" % (i, o[0]) for i, o in pre_ops),
                 "+".join(ml),
-                "none" if not shared else "%s@%s%s" % (shared[0], shared[1], "" if len(shared) < 3 else "/" + shared[2]),
+                "none" if not shared else "%s@%s%s" % (shared[0], shared[1], "" if len(shared) < 3 else "/" + "/".join(str(t) for t in shared[2:])),
                 ";".join("%s.%s" % (op[0], op[1][0]) for op in seq),
                 _fit_tag(fit, post),
             )
@@ -485,4 +500,5 @@ def vacuity_guards(tot, tier):
     yield "set_all / do_fit issued on a member explored", tot.facts.get("member-op:setall", 0) > 0 and tot.facts.get("member-op:fit", 0) > 0
     yield "asymmetric uncertainties requested behind a plain fit", tot.facts.get("asymmetric:fit+prop", 0) > 0
     yield "operations behind the fit explored", tot.facts.get("post-fit-op", 0) > 0
+    yield "two shared sources with overlapping member lists explored", tot.facts.get("shared:two-sources", 0) > 0
     yield "members used on their own before the multi-fit was built", tot.facts.get("member-used-before", 0) > 0
